@@ -617,7 +617,7 @@ def _repeat_outcome(kind, neg1, d1, neg2, d2):
 
 def repeat_bounds(kind: int, neg1: bool, d1: str, neg2: bool, d2: str) -> bool:
     """
-    pre: 0 <= kind <= 2 and dom_digits(d1) and dom_digits(d2) and (kind == 2 or (d2 == '0' and not neg2))
+    pre: 0 <= kind <= 2 and (NP <= 1 or kind % NP == P) and dom_digits(d1) and dom_digits(d2) and (kind == 2 or (d2 == '0' and not neg2))
     pre: kind != 2 or (len(d1) <= 1 and len(d2) <= 1)
     post: _
     """
@@ -626,7 +626,7 @@ def repeat_bounds(kind: int, neg1: bool, d1: str, neg2: bool, d2: str) -> bool:
 
 def repeat_bounds__reach(kind: int, neg1: bool, d1: str, neg2: bool, d2: str) -> bool:
     """
-    pre: 0 <= kind <= 2 and dom_digits(d1) and dom_digits(d2) and (kind == 2 or (d2 == '0' and not neg2))
+    pre: 0 <= kind <= 2 and (NP <= 1 or kind % NP == P) and dom_digits(d1) and dom_digits(d2) and (kind == 2 or (d2 == '0' and not neg2))
     pre: kind != 2 or (len(d1) <= 1 and len(d2) <= 1)
     post: not _
     """
